@@ -540,3 +540,10 @@ package common
 //@   ensures[only-the-first-self-parameter-of-a-colon-function] result ==> fun != nil && fun.IsColon && varInfo != nil && varInfo.IsParam && fun.MainScope != nil
 //@        && has(fun.MainScope.LocVarMap, "self") && fun.MainScope.LocVarMap["self"].VarVec[0] == varInfo
 //@ end
+
+// ---- C14: a bare prefix "self" is completed as a name, not as the method's table ----
+//@ func ChangeSelfToVarComplete
+//@   props C14
+//@   requires completeVar != nil && len(completeVar.StrVec) >= 1
+//@   ensures[a-bare-self-prefix-is-left-as-it-is] old(len(completeVar.StrVec) == 1 && !completeVar.LastEmptyFlag) ==> len(completeVar.StrVec) == 1 && completeVar.StrVec == old(completeVar.StrVec) && hits("strings.Split#0") == 0
+//@ end
